@@ -420,12 +420,17 @@ def Pool.tryShards (p : Pool K) (ρ : Nat → Nat × Nat) : Nat → Nat → List
       | some c => some c
       | none => p.tryShards ρ fuel (k + 1) (swapRemove toTry idx)
 
+/-- `shard.try_into::<u16>().unwrap_or(0)` (`connection_pool.rs:334-341`): a shard number that does not fit `u16`
+is replaced by shard 0. -/
+def shardAsU16 (shard : Nat) : Nat := if shard < 65536 then shard else 0
+
 /-- `NodeConnectionPool::connection_for_shard(shard)`: `none` = `Err(Initializing | Broken)` (or the panic). -/
 def Pool.connectionForShard (p : Pool K) (shard r : Nat) (ρ : Nat → Nat × Nat) : Option Nat :=
   if p.conns.isEmpty then none
   else match p.sharder with
     | none => chooseFrom p.conns r
     | some n =>
+      let shard := shardAsU16 shard
       -- `shard_conns.get(shard)`: out of bounds = no preferred bucket
       match (if shard < n then chooseFrom (p.bucket shard) r else none) with
       | some c => some c
@@ -442,7 +447,9 @@ otherwise any published connection. -/
 def Pool.handable (p : Pool K) (shard : Nat) : List Nat :=
   match p.sharder with
   | none => p.conns
-  | some n => if shard < n && !(p.bucket shard).isEmpty then p.bucket shard else p.conns
+  | some n =>
+    let shard := shardAsU16 shard
+    if shard < n && !(p.bucket shard).isEmpty then p.bucket shard else p.conns
 
 /-! ## 4. The cluster worker -/
 
